@@ -188,6 +188,9 @@ pub enum QOp {
     NoMore,
     DropRow,
     DropResult,
+    /// the callback returns the shim's own error here, as `?` would: whatever writers are still held go
+    /// out of scope (their destructors may write)
+    Bail(u64),
 }
 impl QOp {
     /// value-erased shape name
@@ -206,6 +209,7 @@ impl QOp {
             QOp::NoMore => "no_more_results",
             QOp::DropRow => "drop_row_writer",
             QOp::DropResult => "drop_result_writer",
+            QOp::Bail(_) => "return_err",
         }
     }
 }
@@ -539,6 +543,12 @@ impl ScriptShim {
                     }
                     drop(qw.take());
                     self.res(i, name, &Ok(()));
+                }
+                QOp::Bail(t) => {
+                    self.res(i, name, &Ok(()));
+                    drop(rw.take());
+                    drop(qw.take());
+                    return Err(ShimErr::Token(*t));
                 }
             }
         }
